@@ -69,6 +69,8 @@ pub struct VringEpollHandler<T: VhostUserBackend> {
 impl<T: VhostUserBackend> VringEpollHandler<T> {
     /// Send `exit event` to break the event loop.
     pub fn send_exit_event(&self) {
+        #[cfg(feature = "verif-hooks")]
+        vhost::verif::point("worker.send_exit_event");
         if let Some(eventfd) = self.exit_event_fd.as_ref() {
             let _ = eventfd.notify();
         }
@@ -139,11 +141,15 @@ where
     }
 
     pub(crate) fn register_event(&self, fd: RawFd, ev_type: EventSet, data: u64) -> Result<()> {
+        #[cfg(feature = "verif-hooks")]
+        vhost::verif::point("epoll.register");
         self.epoll
             .ctl(ControlOperation::Add, fd, EpollEvent::new(ev_type, data))
     }
 
     pub(crate) fn unregister_event(&self, fd: RawFd, ev_type: EventSet, data: u64) -> Result<()> {
+        #[cfg(feature = "verif-hooks")]
+        vhost::verif::point("epoll.unregister");
         self.epoll
             .ctl(ControlOperation::Delete, fd, EpollEvent::new(ev_type, data))
     }
@@ -153,10 +159,14 @@ where
     /// The event loop will be terminated once an event is received from the `exit event fd`
     /// associated with the backend.
     pub(crate) fn run(&self) -> VringEpollResult<()> {
+        #[cfg(feature = "verif-hooks")]
+        vhost::verif::thread_enter("worker");
         const EPOLL_EVENTS_LEN: usize = 100;
         let mut events = vec![EpollEvent::new(EventSet::empty(), 0); EPOLL_EVENTS_LEN];
 
         'epoll: loop {
+            #[cfg(feature = "verif-hooks")]
+            vhost::verif::wait_readable(self.epoll.as_raw_fd(), "worker.epoll_wait");
             let num_events = match self.epoll.wait(-1, &mut events[..]) {
                 Ok(res) => res,
                 Err(e) => {
@@ -174,6 +184,8 @@ where
                 }
             };
 
+            #[cfg(feature = "verif-hooks")]
+            vhost::verif::point("worker.epoll_returned");
             for event in events.iter().take(num_events) {
                 let evset = match EventSet::from_bits(event.events) {
                     Some(evset) => evset,
@@ -203,6 +215,8 @@ where
 
         if (device_event as usize) < self.vrings.len() {
             let vring = &self.vrings[device_event as usize];
+            #[cfg(feature = "verif-hooks")]
+            vhost::verif::point("worker.before_read_kick");
             let enabled = vring
                 .read_kick()
                 .map_err(VringEpollError::HandleEventReadKick)?;
@@ -213,6 +227,8 @@ where
             }
         }
 
+        #[cfg(feature = "verif-hooks")]
+        vhost::verif::point("worker.before_dispatch");
         self.backend
             .handle_event(device_event, evset, &self.vrings, self.thread_id)
             .map_err(VringEpollError::HandleEventBackendHandling)?;
